@@ -2,6 +2,7 @@
 package main
 
 import (
+	"sync"
 	"fmt"
 	"math"
 	"sort"
@@ -409,15 +410,35 @@ func main() {
 	})
 
 	// wrappers and the generic entry point
+	// a simplifier value may be kept and reused for any number of geometries of any kind, in any order. The calls
+	// under test go through one long-lived instance per worker (s), whose history grows with every execution; every
+	// expected value comes from a fresh instance (mk) that has seen nothing before.
+	type simpSpec struct {
+		name string
+		mk   func() orb.Simplifier
+	}
 	type simp struct {
 		name string
 		s    orb.Simplifier
+		mk   func() orb.Simplifier
 	}
-	simps := []simp{
-		{"DouglasPeucker(0.6)", simplify.DouglasPeucker(0.6)}, {"DouglasPeucker(5)", simplify.DouglasPeucker(5)},
-		{"Radial(1.2)", simplify.Radial(dist, 1.2)}, {"Radial(9)", simplify.Radial(dist, 9)},
-		{"VisvalingamThreshold(0.6)", simplify.VisvalingamThreshold(0.6)}, {"VisvalingamKeep(3)", simplify.VisvalingamKeep(3)}, {"VisvalingamThreshold(50)", simplify.VisvalingamThreshold(50)},
+	specs := []simpSpec{
+		{"DouglasPeucker(0.6)", func() orb.Simplifier { return simplify.DouglasPeucker(0.6) }}, {"DouglasPeucker(5)", func() orb.Simplifier { return simplify.DouglasPeucker(5) }},
+		{"Radial(1.2)", func() orb.Simplifier { return simplify.Radial(dist, 1.2) }}, {"Radial(9)", func() orb.Simplifier { return simplify.Radial(dist, 9) }},
+		{"VisvalingamThreshold(0.6)", func() orb.Simplifier { return simplify.VisvalingamThreshold(0.6) }}, {"VisvalingamKeep(3)", func() orb.Simplifier { return simplify.VisvalingamKeep(3) }}, {"VisvalingamThreshold(50)", func() orb.Simplifier { return simplify.VisvalingamThreshold(50) }},
 	}
+	var liveMu sync.Mutex
+	live := map[[2]int]orb.Simplifier{}
+	simpOf := func(worker, i int) simp {
+		liveMu.Lock()
+		defer liveMu.Unlock()
+		k := [2]int{worker, i}
+		if live[k] == nil {
+			live[k] = specs[i].mk()
+		}
+		return simp{specs[i].name, live[k], specs[i].mk}
+	}
+	simps := specs
 	outerCat := []orb.Ring{
 		{{0, 0}, {3, 0}, {3, 3}, {0, 3}, {0, 0}},
 		{{0, 0}, {1, 0}, {2, 0}, {3, 0}, {3, 3}, {0, 0}},
@@ -426,14 +447,14 @@ func main() {
 	}
 	r.Explore("wrappers", "7 simplifiers x outer catalogue x every 3-vertex closed hole: Polygon / MultiPolygon / Collection / MultiLineString / Simplify / mvt Layers.Simplify compose the ring results and drop only rings (polygons) reduced to <= 2 points",
 		mc.Opts{MaxDev: -1, Split: 2}, func(c *mc.Ctx) {
-			sp := simps[c.Choose(len(simps))]
+			sp := simpOf(c.Worker, c.Choose(len(simps)))
 			outer := outerCat[c.Choose(len(outerCat))]
 			var hole orb.Ring
 			for i := 0; i < 3; i++ {
 				hole = append(hole, gp(c.Choose(G*G)))
 			}
 			hole = append(hole, hole[0])
-			so, sh := sp.s.Ring(outer.Clone()), sp.s.Ring(hole.Clone())
+			so, sh := sp.mk().Ring(outer.Clone()), sp.mk().Ring(hole.Clone())
 			poly := orb.Polygon{outer, hole}
 			want := orb.Polygon{so}
 			if len(sh) > 2 {
@@ -454,7 +475,7 @@ func main() {
 					w3 := orb.Polygon{so}
 					for _, k := range ord {
 						p3 = append(p3, pool[k].Clone())
-						if sr := sp.s.Ring(pool[k].Clone()); len(sr) > 2 {
+						if sr := sp.mk().Ring(pool[k].Clone()); len(sr) > 2 {
 							w3 = append(w3, sr)
 						}
 					}
@@ -469,7 +490,7 @@ func main() {
 			if len(so) > 2 {
 				wm = append(wm, want)
 			}
-			if so2 := sp.s.Polygon(other.Clone()); len(so2[0]) > 2 {
+			if so2 := sp.mk().Polygon(other.Clone()); len(so2[0]) > 2 {
 				wm = append(wm, so2)
 			}
 			gm := sp.s.MultiPolygon(mp.Clone())
@@ -479,7 +500,7 @@ func main() {
 			ls := orb.LineString(hole.Clone())
 			mls := orb.MultiLineString{ls.Clone(), orb.LineString(outer.Clone())}
 			gl := sp.s.MultiLineString(mls.Clone())
-			wl := orb.MultiLineString{sp.s.LineString(ls.Clone()), sp.s.LineString(orb.LineString(outer.Clone()))}
+			wl := orb.MultiLineString{sp.mk().LineString(ls.Clone()), sp.mk().LineString(orb.LineString(outer.Clone()))}
 			if !refgeom.Equal(gl, wl) {
 				c.Failf("multilinestring", "%s.MultiLineString(%v) = %v, want %v", sp.name, mls, gl, wl)
 			}
@@ -497,7 +518,7 @@ func main() {
 			pairs := []pair{
 				{orb.Point{1, 2}, orb.Point{1, 2}},
 				{orb.MultiPoint{{1, 2}, {1, 2}}, orb.MultiPoint{{1, 2}, {1, 2}}},
-				{ls.Clone(), sp.s.LineString(ls.Clone())},
+				{ls.Clone(), sp.mk().LineString(ls.Clone())},
 				{mls.Clone(), nilIfEmpty(wl, len(wl))},
 				{hole.Clone(), sh},
 				{poly.Clone(), nilIfEmpty(want, len(want))},
@@ -543,7 +564,7 @@ func main() {
 			}
 			if len(layer.Features) == 2 {
 				// the feature behind a dropped one is simplified like any other
-				if wl := sp.s.Simplify(ls.Clone()); !refgeom.Equal(layer.Features[1].Geometry, wl) {
+				if wl := sp.mk().Simplify(ls.Clone()); !refgeom.Equal(layer.Features[1].Geometry, wl) {
 					c.Failf("mvt-layers-simplify", "%s: the feature following a dropped feature comes back as %v, simplified alone it is %v", sp.name, layer.Features[1].Geometry, wl)
 				}
 			}
